@@ -29,13 +29,13 @@ use zipora::hash_map::{
 use zipora::memory::{SecureMemoryPool, SecurePoolConfig};
 
 const HEADER: &str = r#"From ZV.Common Require Import Base Run.
-From ZV.C06 Require Import Model ModelGold ModelEasy ModelIdx ModelFast ModelStr ModelEasyX.
+From ZV.C06 Require Import Model ModelGold ModelEasy ModelIdx ModelFast ModelStr ModelEasyX ModelIdxX.
 Open Scope N_scope.
 (* kind 0: standard storage [hasher mode; initial capacity; has_final; final capacity] [final slot-order iteration]
    kind 1: stub storage; kind 2: SmallMap;
    kind 4: EasyHashMap [initial capacity; auto_grow; max_load_factor numerator; denominator]
            (ModelEasyX: op 12 = get_or_insert(_with), op 15 = one put of an extend / Extend / FromIterator loop)
-   kind 5: GoldHashIdx [requested capacity]
+   kind 5: GoldHashIdx [requested capacity] (ModelIdxX: op 16 = the pre-sizing of insert_batch for k items, op 17 = one insert of its loop)
    kind 6: standard storage under a hash function given as a table (String / typed keys: key numbers are the harness's
            canonical numbering of the keys, the table holds what the cell's BuildHasher returns for each) [initial capacity] [hash table]
    kind 7: SmallMap<u8> with get answered by get_fast (ModelFast.v)
@@ -55,7 +55,7 @@ Definition ok (c : case_t) : bool :=
           else let st := exec h st0 ops in eqb_kvs (iter st) (tb ts 0) && (alloc st =? pn ps 3))
   | 1 => eqb_obss (stub_run ops) expect
   | 2 => eqb_obss (sm_run (hasher 0) (Small []) ops) expect
-  | 5 => eqb_obss (irun (hasher 0) (iinit (pn ps 0)) ops) expect
+  | 5 => eqb_obss (irunx (hasher 0) (iinit (pn ps 0)) ops) expect
   | 6 => eqb_obss (run (assoc (tb ts 0) 0) (init (pn ps 0)) ops) expect
   | 7 => eqb_obss (smf_run true (hasher 0) (Small []) ops) expect
   | 8 => eqb_obss (hs_run hs_new ops) expect
@@ -405,7 +405,9 @@ fn history(cx: &mut Ctx, family: &str, variant: u64, aux: u64, ops: &[(u64, u64,
     if has_rm_reinsert { cx.sum.dist("histories_with_remove_then_reinsert"); }
 
     // EasyHashMap's model also knows get_or_insert(_with) (op 12) and the put loop of extend / Extend / FromIterator (op 10)
-    let ext = matches!(cell.model, Some(ModelDesc::Easy { .. }));
+    // GoldHashIdx's model knows insert_batch (op 10) as its pre-sizing step followed by the insert loop
+    let idx_ext = matches!(cell.model, Some(ModelDesc::Idx { .. }));
+    let ext = idx_ext || matches!(cell.model, Some(ModelDesc::Easy { .. }));
     let mut expanded: std::collections::HashMap<usize, Vec<(u64, u64)>> = std::collections::HashMap::new();
     let mut shadow: BTreeMap<u64, u64> = BTreeMap::new();
     let mut obs: Vec<String> = vec![];      // observations as Coq terms (model comparison)
@@ -478,7 +480,7 @@ fn history(cx: &mut Ctx, family: &str, variant: u64, aux: u64, ops: &[(u64, u64,
                 12 => m.get_or_insert(k, v, v0 / 2).map(|r| {
                     let want = shadow.get(&k).copied().unwrap_or(v);
                     match r {
-                        Ok(got) => (if ext { format!("ORes (Some {})", got) } else { "OMut".to_string() }, if got != want { Some(format!("get_or_insert({},{}) = {}, a map yields {}", k, v, got, want)) } else { None }),
+                        Ok(got) => (if ext && !idx_ext { format!("ORes (Some {})", got) } else { "OMut".to_string() }, if got != want { Some(format!("get_or_insert({},{}) = {}, a map yields {}", k, v, got, want)) } else { None }),
                         Err(e) => ("OMut".to_string(), Some(format!("get_or_insert({},{}) returned Err({})", k, v, e))),
                     } }),
                 13 => m.retain(rm, rr, radd).map(|_| ("OMut".to_string(), None)),
@@ -569,7 +571,10 @@ fn history(cx: &mut Ctx, family: &str, variant: u64, aux: u64, ops: &[(u64, u64,
                 if !offered[i] { continue; }
                 match expanded.get(&i) {
                     // a bulk insertion is the loop of its put() calls
-                    Some(items) => for (a, b) in items { ops_coq.push(format!("(15, {}, {})", a, b)); obs_coq.push("OUnit".into()); },
+                    Some(items) => {
+                        if idx_ext { ops_coq.push(format!("(16, {}, 0)", items.len())); obs_coq.push("OUnit".into()); }
+                        for (a, b) in items { ops_coq.push(format!("({}, {}, {})", if idx_ext { 17 } else { 15 }, a, b)); obs_coq.push("OUnit".into()); }
+                    }
                     None => { let (c, k, v) = ops_src[i]; ops_coq.push(format!("({}, {}, {})", c, k, v)); obs_coq.push(obs[i].clone()); }
                 }
             }
